@@ -1,13 +1,14 @@
-import DaeVerif.C15.Model
+import DaeVerif.C15.Conc
 import DaeVerif.Common.Proto
 /-! Line-protocol driver for C15 (op grammar: see harness/overlay/component/outbound/c15_test.go). -/
 open DaeVerif DaeVerif.C15 DaeVerif.Proto
 
 /-- driver state: before `group` only the dialers exist (their collections, flags, penalties);
-afterwards everything lives in the model's `World` and every event is a `stepWcb`. -/
+afterwards everything lives in the model's `AWorld` (world + updates in flight + sets under
+construction) and every event is a `stepAcb` (a sequential event `e` is `.sync e` = `stepWcb`). -/
 structure DState where
   n : Nat
-  w : Option World
+  w : Option AWorld
   colls : Nat → Nat → Coll      -- [type][dialer], before the group exists
   alive : Nat → Nat → Bool
   pens : Nat → Nat → Int
@@ -100,13 +101,16 @@ def parseNetType? (l4 ip dns dom : String) : Option NetType := do
   pure ⟨udp, ip6, isDns, d⟩
 
 /-- apply a world event and print callbacks + the dump of domain `t` (or all domains) -/
-def worldEv (st : DState) (w : World) (e : WEv) (dumpT : Option Nat) : DState × String :=
-  let r := stepWcb w e
-  let g := r.1.g
+def worldEvA (st : DState) (w : AWorld) (e : AEv) (dumpT : Option Nat) : DState × String :=
+  let r := stepAcb w e
+  let g := r.1.w.g
   let dump := match dumpT with
     | some t => if g.hasSets then setDump (g.sets t) else "nosets"
     | none => groupDump g
   ({ st with w := some r.1 }, cbsStr r.2 ++ " " ++ dump)
+
+def worldEv (st : DState) (w : AWorld) (e : WEv) (dumpT : Option Nat) : DState × String :=
+  worldEvA st w (.sync e) dumpT
 
 def handle (st : DState) (line : String) : DState × String :=
   match words line with
@@ -120,7 +124,7 @@ def handle (st : DState) (line : String) : DState × String :=
       let snap := fun t d => (st.colls t d).snapshot p (st.pens t d)
       let cbs := (gNew st.n tol (fun d => offs.getD d 0) p fi st.alive snap).2
       let w := worldNew st.n tol (fun d => offs.getD d 0) p fi st.alive st.colls st.pens
-      ({ st with w := some w }, cbsStr cbs ++ " " ++ groupDump w.g)
+      ({ st with w := some (AWorld.ofWorld w) }, cbsStr cbs ++ " " ++ groupDump w.g)
     | _, _, _, _ => (st, "bad-op")
   | ["sample", t, d, l] =>
     match t.toNat?, d.toNat?, parseInt? l with
@@ -142,12 +146,12 @@ def handle (st : DState) (line : String) : DState × String :=
     match t.toNat?, d.toNat?, parseInt? v with
     | some t, some d, some v =>
       match st.w with
-      | some w => ({ st with w := some (stepW w (.pen t d v)) }, "ok")
+      | some w => ({ st with w := some (stepA w (.sync (.pen t d v))) }, "ok")
       | none => ({ st with pens := upd st.pens t (upd (st.pens t) d v) }, "ok")
     | _, _, _ => (st, "bad-op")
   | ["same", t] =>
     match st.w, t.toNat? with
-    | some w, some t => (st, cbsStr [] ++ " " ++ (if w.g.hasSets then setDump (w.g.sets t) else "nosets"))
+    | some w, some t => (st, cbsStr [] ++ " " ++ (if w.w.g.hasSets then setDump (w.w.g.sets t) else "nosets"))
     | none, some _ => (st, "nogroup")
     | _, _ => (st, "bad-op")
   | ["restore", d, snap] =>
@@ -169,14 +173,14 @@ def handle (st : DState) (line : String) : DState × String :=
     match st.w with
     | some w =>
       (st, "fb=" ++ ",".intercalate ((List.range 6).map fun t =>
-        let c := sortNat (captureFallbackAll w.g t).eraseDups
+        let c := sortNat (captureFallbackAll w.w.g t).eraseDups
         if c.isEmpty then "-" else "/".intercalate (c.map toString)))
     | none => (st, "bad-op")
   | ["floor", fbs] =>
     match st.w, ((fbs.splitOn ",").mapM fun x => if x = "-" then some (none : Option Nat) else x.toNat?.map some) with
     | some w, some fb =>
-      let r := floorW w (fun t => (fb.getD t none))
-      ({ st with w := some r.1 }, cbsStr r.2 ++ " " ++ groupDump r.1.g)
+      let r := floorW w.w (fun t => (fb.getD t none))
+      ({ st with w := some { w with w := r.1 } }, cbsStr r.2 ++ " " ++ groupDump r.1.g)
     | _, _ => (st, "bad-op")
   | ["dial", mode, out, dom, rr, l4, s6, d6, excl, b0] =>
     -- the real routeDial: mode i|p|c, outbound u|r|x, domain n|d|l, routed-outbound-reserved 0|1,
@@ -189,26 +193,60 @@ def handle (st : DState) (line : String) : DState × String :=
     | some w, some m, some o, some dm, some b, some ex =>
       let strict := dialStrict m o dm (rr = "1")
       let nt := dialSelType (l4 = "u") (s6 = "6") (d6 = "6")
-      let r := routeDialAll w nt strict ex b
+      let r := routeDialAll w.w nt strict ex b
       let isOk : Except SelErr (List SelOk) → Bool := fun a => match a with | .ok _ => true | .error _ => false
       let dials := (r.2.2.filter isOk).length
       let last := match r.2.2.getLast? with | some a => resStrNoLat a | none => "?"
-      ({ st with w := some r.1 }, "strict=" ++ boolStr strict ++ " dials=" ++ toString dials ++ " last=" ++ last ++
+      ({ st with w := some { w with w := r.1 } }, "strict=" ++ boolStr strict ++ " dials=" ++ toString dials ++ " last=" ++ last ++
         " " ++ cbsStr r.2.1 ++ " " ++ groupDump r.1.g)
     | _, _, _, _, _, _ => (st, "bad-op")
+  | ["mark", id, t, d, a] =>
+    match st.w, id.toNat?, t.toNat?, d.toNat? with
+    | some w, some id, some t, some d => worldEvA st w (.mark id t d (a = "1")) (some t)
+    | _, _, _, _ => (st, "bad-op")
+  | ["obs", id, t, d, l] =>
+    match st.w, id.toNat?, t.toNat?, d.toNat?, parseInt? l with
+    | some w, some id, some t, some d, some l => worldEvA st w (.obs id t d l) (some t)
+    | _, _, _, _, _ => (st, "bad-op")
+  | ["deliver", id] =>
+    match st.w, id.toNat? with
+    | some w, some id =>
+      match w.pend.find? (fun p => p.id == id) with
+      | some p => worldEvA st w (.deliver id) (some p.t)
+      | none => (st, "nopend")
+    | _, _ => (st, "bad-op")
+  | ["agree"] =>
+    match st.w with
+    | some w =>
+      let ds := disagreements w
+      let f := fun (l : List (Nat × Nat)) => ",".intercalate (l.map fun x => s!"{x.1}:{x.2}")
+      (st, "dis=" ++ f ds ++ " unexp=" ++ f (ds.filter fun x => !explained w x.1 x.2))
+    | none => (st, "bad-op")
+  | ["pbegin", pol, fi] =>
+    match st.w, parsePolicy? pol, parseInt? fi with
+    | some w, some p, some fi => worldEvA st w (.pbegin p fi) none
+    | _, _, _ => (st, "bad-op")
+  | ["pbuild"] =>
+    match st.w with
+    | some w => let r := stepAcb w .pbuild; ({ st with w := some r.1 }, cbsStr r.2 ++ " ok")
+    | none => (st, "bad-op")
+  | ["pend"] =>
+    match st.w with
+    | some w => worldEvA st w .pend none
+    | none => (st, "bad-op")
   | ["policy", pol, fi] =>
     match st.w, parsePolicy? pol, parseInt? fi with
     | some w, some p, some fi => worldEv st w (.policy p fi) none
     | _, _, _ => (st, "bad-op")
   | [op, l4, ip, dns, dom, strict, excl] =>
-    match st.w.map (·.g), parseNetType? l4 ip dns dom, parseExcl? excl with
+    match st.w.map (·.w.g), parseNetType? l4 ip dns dom, parseExcl? excl with
     | some g, some nt, some ex =>
       if op = "sel" then (st, resStrS (g.policy == .fixed) (selectAll g nt (strict = "1") ex))
       else if op = "choose" then (st, resStrNoLat (chooseSelectAll g nt (strict = "1") ex))
       else (st, "bad-op")
     | _, _, _ => (st, "bad-op")
   | ["rand", t, excl] =>
-    match st.w.map (·.g), t.toNat?, parseExcl? excl with
+    match st.w.map (·.w.g), t.toNat?, parseExcl? excl with
     | some g, some t, some ex =>
       (st, "cands=" ++ ",".intercalate ((sortNat (randCands (g.sets t) ex)).map toString))
     | _, _, _ => (st, "bad-op")
